@@ -496,12 +496,12 @@ class Checker:
         return obs, it, dev, exc
 
     def report(self, events, exp, obs, exc, bad, what):
-        if self.unexplained <= 300:
+        if self.unexplained <= 40:
             sigs = classify(events, obs, exc)
             if "unclassified" in sigs[0]:
                 self.unexplained += 1
         else:
-            sigs = ["C16/unclassified-bulk(more than 300 unexplained failing cases in one shard)"]
+            sigs = ["C16/unclassified-bulk(more than 40 unexplained failing cases in one shard)"]
         for sig in sigs:
             self.st.violation(
                 sig, {"events": list(events), "stream": gfx.program(events),
